@@ -781,6 +781,18 @@ class Tx:
                 if r is not None:
                     return r
                 continue
+            if isinstance(st, ast.Try) and len(st.handlers) == 1 and not st.orelse and not st.finalbody:
+                # try: A  except ..: B  --  whether A raises is not modelled: an opaque atom selects between the handler and
+                # the body (so a term that needs the distinction can only agree with a specification when both agree with it)
+                rest = stmts[i + 1:]
+                c = ("atom", f"raises({norm(st.body[0])[:60]})")
+                ta = self.child(dict(self.env))
+                ra = ta.block(list(st.body) + rest)
+                tb = self.child(dict(self.env))
+                rb = tb.block(list(st.handlers[0].body) + rest)
+                if ra is not None and rb is not None:
+                    return I(c, rb, ra)
+                raise Unsupported("try statement that does not return on both paths")
             raise Unsupported(f"statement kind {type(st).__name__} at line {st.lineno}")
         return None
 
@@ -958,8 +970,7 @@ def same_leaf(a, b):
         d = sp.cancel(sp.together(a - b))
         if d == 0:
             return True
-        d = sp.simplify(d)
-        return d == 0
+        return is_zero(d)
     except Exception:
         return False
 
@@ -1020,11 +1031,28 @@ def parse_expr(src: str):
     return ast.parse(src, mode="eval").body
 
 
+IS_ZERO_SIMPLIFY_LIMIT = 250
+
+
+def show(e, n=200) -> str:
+    """text of an expression for a report: simplified when that is cheap"""
+    try:
+        if sp.count_ops(e) <= IS_ZERO_SIMPLIFY_LIMIT:
+            e = sp.simplify(e)
+    except Exception:
+        pass
+    return sp.sstr(e)[:n]
+
+
 def is_zero(e) -> bool:
     try:
         d = sp.cancel(sp.together(e))
         if d == 0:
             return True
+        if sp.count_ops(d) > IS_ZERO_SIMPLIFY_LIMIT:
+            # sympy's simplify is super-linear on large non-zero residues (a changed tree can produce them); the polynomial
+            # normal form above has already decided rational identities, so a large residue is reported as "not shown zero"
+            return sp.expand(sp.numer(d)) == 0
         return sp.simplify(d) == 0
     except Exception:
         return False
